@@ -7,11 +7,20 @@ import os
 
 VERIF = os.path.dirname(os.path.dirname(os.path.abspath(__file__)))
 
-TRUST = ("Coq 8.16.1 kernel (vm_compute used for closed examples and finite sweeps, no native_compute); "
-         "no axioms (Print Assumptions: closed under the global context for every theorem of the property file); "
-         "extraction (ExtrOcamlBasic only) + OCaml driver; Python harness (generators, fail-closed AST exporter, "
-         "comparison). The tie between model and /repo is differential execution on every run, not a proof; "
-         "CPython str/list semantics and the regex library are modelled, not verified.")
+TRUST = ("Coq 8.16.1 kernel (coqc full .vo build; coqchk -o in the thorough tier; vm_compute used for closed examples, finite "
+         "sweeps, necessity witnesses and the wf_auto certificates of the bundled grammars; no native_compute); NO axioms "
+         "(Print Assumptions of every theorem of the property file is parsed on every run and must read 'Closed under the "
+         "global context'; a source gate rejects Admitted/admit/Axiom/Parameter/Conjecture/Hypothesis and Variable outside "
+         "sections/Unset Guard/bypass_check); extraction with ExtrOcamlBasic only (its Extract Inductive for bool, option, "
+         "list, prod, unit, sumbool; no Extract Constant; N, Z, nat, positive stay inductive) and two small OCaml drivers "
+         "(ocaml/driver.ml + conv.ml + ext.ml; ocaml/front_main.ml); the Python harness (generators, the fail-closed exporter "
+         "of Rule/Expression objects incl. its reading of an OptimizedChoice's compiled regex text, canonicalisation, "
+         "comparison, gen_tables.py which regenerates Tables.v / Grammars.v / GrammarsCalc.v / Builtins.v from /repo). The "
+         "tie between the models and /repo is differential execution on every run, not a proof. Modelled by transcription, "
+         "not verified against the source text: Interp.v (interpreter), Gen.v (code templates), Front.v (scanner, grammar "
+         "parser, unescape), SnapStack.v, LineCol.v, Pratt.v, CharClass.v; CPython str/list semantics and the regex library "
+         "as used there; not modelled: the optimizer passes (their output is validated by the proved checker Opt.v), exec of "
+         "generated source, CPython's recursion limit, threads, memory.")
 
 PARSE_TECH = "Coq theorems about the reference semantics + extracted-model differential against 4 execution modes"
 
